@@ -293,9 +293,11 @@ def check(col: Collector, tier: str):
     ignores = "isinstance(t, CPPParsedTypeInfo)" in src(tinit.node)
     for f in repo.all_functions():
         for c in walk_no_nested(f.node):
-            if isinstance(c, ast.Call) and (call_name(c) in ("terminal", "collection") or call_name(c).endswith("_event_collection_collection")
-                                            or call_name(c).endswith("_event_collection_container")):
-                depth_args = [k.arg for k in c.keywords if k.arg and k.arg.startswith("p_depth")]
+            # (whatever the callee is called: terminal(..), a collection class, or super().__init__(..) of one of them)
+            if isinstance(c, ast.Call) and (any(k.arg and k.arg.startswith("p_depth") for k in c.keywords)
+                                            or any(isinstance(a, ast.Name) and a.id.startswith("p_depth") for a in c.args)):
+                depth_args = [k.arg for k in c.keywords if k.arg and k.arg.startswith("p_depth")] + \
+                    [a.id for a in c.args if isinstance(a, ast.Name) and a.id.startswith("p_depth")]
                 parsed = [a for a in c.args if (isinstance(a, ast.Call) and call_name(a) == "parse_type")
                           or (isinstance(a, ast.Name) and any(isinstance(d, ast.Call) and call_name(d) == "parse_type" for d in defs_of(f.node, a.id)))]
                 if depth_args and parsed and ignores:
